@@ -5,8 +5,8 @@ ID = "C18"
 
 PROP = {'lean_props': ['Comrak.Props.C18'],
  'lean_audit': ['Comrak.Audit.C18'],
- 'required_theorems': ['enter_sourcepos_only_adds', 'exit_sourcepos_only_adds', 'exit_independent_of_sourcepos'],
- 'strength': 'per-node theorems for all kinds/options/states (HTML); tree-level lift, XML and CommonMark by correspondence + on/off oracle',
+ 'required_theorems': ['enter_sourcepos_only_adds', 'exit_sourcepos_only_adds', 'exit_independent_of_sourcepos', 'html_sourcepos_only_adds'],
+ 'strength': 'full for HTML at token level (whole trees, every option vector); XML, CommonMark and the parser by the on/off oracle on real output',
  'trusted_base': ["recursive renderT/renderF stand for comrak's explicit work-stack traversal (exercised by the correspondence on deep and wide "
                   'trees, not proved)',
                   'anchor normalisation (Unicode lower-casing / category filter) is a parameter of the model; the harness supplies the real '
@@ -15,12 +15,8 @@ PROP = {'lean_props': ['Comrak.Props.C18'],
                  'blamed on the option',
                  'XML and CommonMark formatters are not yet in the Lean model for this property: decided there by the oracle on real output only']}
 
-TEXT = {'text': 'Proof (partial). For the complete token-level model of html.rs, Lean proves for every node kind, option vector, context and writer state '
-         'that erasing data-sourcepos from what a node writes with the option on gives exactly what it writes with the option off, on entering and '
-         'on leaving the node (enter/exit_sourcepos_only_adds). The lift to whole trees, and the XML/CommonMark/parser halves, are decided on every '
-         'run by byte-equal correspondence of the model with format_html for both settings and by the on/off oracle on the real format_html, '
-         'format_xml, format_commonmark and parse_document over generated documents and directly built trees x random option vectors.',
- 'note': "Trusted: Lean kernel + standard axioms; harness/driver; the tree-level lift needs equality of the two runs' writer states, exercised not "
+TEXT = {'text': "Proof. For the complete token-level model of html.rs, Lean proves for every option vector, normalisation table and tree of any depth and width that erasing the data-sourcepos attributes from the rendering with the option on gives exactly the rendering with the option off (html_sourcepos_only_adds), by per-node lemmas for all 41 kinds and a mutual induction in which the writer states of the two runs are shown equal after every step (last_was_lf is determined by the last byte written, which erasing an attribute never changes). The model is tied to format_html by byte-equality for both settings on every run; the XML, CommonMark and parser halves of the statement are decided on every run by the on/off oracle on the real format_xml, format_commonmark and parse_document over generated documents and directly built trees x random option vectors.",
+        'note': "Trusted: Lean kernel + standard axioms; harness/driver; the tree-level lift needs equality of the two runs' writer states, exercised not "
          'proved.',
  'technique': 'Lean 4 per-node theorems (case analysis over 41 kinds) + differential correspondence + metamorphic on/off oracle on real output',
  'design_ref': 'DESIGN.md section 7, C18'}
